@@ -43,6 +43,17 @@ NoRes == [cls |-> "none", t |-> -1]
 ObsInit(c, t) == /\ cfg = c /\ tc = t /\ att = <<>> /\ dec = <<>> /\ res = NoRes
                  /\ stp = Never /\ cnl = Never /\ late = 0
 
+\* the announcement of a retry that has not been followed by anything yet
+NoPend == [logged |-> FALSE, d |-> -1, tlog |-> -1]
+
+\* close the decision record of the last attempt if it failed and its continuation is now known
+CloseDec(p, next, t) ==
+  IF Len(att) > 0 /\ Len(dec) < Len(att) /\ att[Len(att)].kind # "ok"
+    THEN Append(dec, [logged |-> p.logged, d |-> p.d, tlog |-> p.tlog,
+                      nowLo |-> att[Len(att)].t1, nowHi |-> IF p.logged THEN p.tlog ELSE t,
+                      next |-> next, tnext |-> t])
+    ELSE dec
+
 -----------------------------------------------------------------------------
 (* The configured exponential back-off envelope: the k-th wait (k = 0, 1, ...) is drawn from
    interval_k * (1 +- randomization_factor), interval_0 = initial_interval,
@@ -68,10 +79,12 @@ NoFitMaybe(t)   == \/ (cfg.budget > 0 /\ t + 2 * Eps > BudgetEndLo)
                    \/ (cfg.deadline # NoDeadline /\ t + 2 * Eps > cfg.deadline)
 
 \* decision j belongs to failed attempt j (every earlier attempt failed and was retried)
-StopSurelyBeforeWake(j)   == stp.t0 >= 0 /\ dec[j].logged /\ stp.t1 < dec[j].tlog + dec[j].d
-CancelSurelyBeforeWake(j) == cnl.t0 >= 0 /\ dec[j].logged /\ cnl.t1 < dec[j].tlog + dec[j].d
+StopSurelyBeforeWake(j)   == stp.t0 >= 0 /\ dec[j].logged /\ stp.t1 + 2 * Eps < dec[j].tlog + dec[j].d
+CancelSurelyBeforeWake(j) == cnl.t0 >= 0 /\ dec[j].logged /\ cnl.t1 + 2 * Eps < dec[j].tlog + dec[j].d
 StopMaybeBefore(t)   == stp.t0 >= 0 /\ stp.t0 <= t
 CancelMaybeBefore(t) == cnl.t0 >= 0 /\ cnl.t0 <= t
+\* the request's context may have expired by t (a wait that ends exactly at the deadline races with it)
+DeadlineMaybeBefore(t) == cfg.deadline # NoDeadline /\ cfg.deadline <= t + 2 * Eps
 
 Retried(j) == dec[j].next = "attempt"
 
@@ -84,8 +97,8 @@ MayRetry(j) ==
   /\ ~StopSurelyBeforeWake(j)
 MayGiveUp(j) ==
   \/ ~cfg.enabled \/ Permanent(j)
-  \/ StopMaybeBefore(dec[j].tnext) \/ CancelMaybeBefore(dec[j].tnext)
-  \* once it has announced the retry only shutdown (or cancellation) may end the wait
+  \/ StopMaybeBefore(dec[j].tnext) \/ CancelMaybeBefore(dec[j].tnext) \/ DeadlineMaybeBefore(dec[j].tnext)
+  \* once it has announced the retry only shutdown (or the end of the request's context) may end the wait
   \/ (~dec[j].logged /\ NoFitMaybe(dec[j].nowHi + Max(EnvHi(j - 1), Thr(j))))
 RetryIff == \A j \in 1..Len(dec) : IF Retried(j) THEN MayRetry(j) ELSE MayGiveUp(j)
 
@@ -113,7 +126,8 @@ OnlyRemainderResent ==
 \* "A retry wait interrupted by shutdown ends with a shutdown-classified error"
 ShutdownClassified ==
   \A j \in 1..Len(dec) :
-     (dec[j].logged /\ ~Retried(j) /\ StopMaybeBefore(dec[j].tnext) /\ ~CancelMaybeBefore(dec[j].tnext))
+     (/\ dec[j].logged /\ ~Retried(j) /\ StopMaybeBefore(dec[j].tnext)
+      /\ ~CancelMaybeBefore(dec[j].tnext) /\ ~DeadlineMaybeBefore(dec[j].tnext))
         => res.cls = "shutdown"
 
 Property == /\ RetryIff /\ NothingAfterVerdict /\ DelayAtLeastThrottle /\ DelayInEnvelope
